@@ -6,7 +6,7 @@ from fractions import Fraction
 import z3
 
 from . import values as V
-from .values import Seq, SetV, DictV, Obj, Func, Module, RangeV, OutOfSubset, Opaque, is_z3
+from .values import Seq, SetV, DictV, Obj, ObjSeq, Func, Module, RangeV, OutOfSubset, Opaque, is_z3
 
 BUILTINS = {"len", "range", "list", "tuple", "max", "min", "abs", "sum", "int", "float", "bool", "map", "zip",
             "enumerate", "sorted", "reversed", "isinstance", "set", "round", "all", "any", "dict", "str"}
@@ -108,7 +108,7 @@ def call_builtin(ex, name, args, kwargs, node):
     S = ex.S
     if name == "len":
         (x,) = args
-        if isinstance(x, Seq):
+        if isinstance(x, (Seq, ObjSeq)):
             return x.len()
         raise OutOfSubset("len of %r" % (x,), node)
     if name == "range":
